@@ -494,6 +494,35 @@ fn subjects(ctx: &Ctx) -> Vec<Subject> {
         ];
         v.push(Subject { name: "SymbolTest".into(), data, filter: None, ops });
     }
+    // 6. fonts that load but carry a lazily loaded table that is present and unparsable: the first query reports the
+    //    parse error; every later query must report it again (a failed load must not be remembered as "table absent")
+    {
+        let cmap = [(b'a' as u32, 1u16), (b'b' as u32, 2), (0x25CC, 3)];
+        let corrupt: [(&str, Vec<(u32, Vec<u8>)>); 5] = [
+            ("corrupt-GPOS", vec![(tag::GPOS, vec![0, 1, 0, 0, 0, 10, 0, 30])]),
+            ("corrupt-GSUB", vec![(tag::GSUB, vec![0, 1, 0, 0, 0, 10])]),
+            ("corrupt-GDEF-kern", vec![(tag::GDEF, vec![0, 1, 0, 0]), (tag::KERN, vec![0, 0, 0, 1, 0, 0])]),
+            ("corrupt-vhea-vmtx-morx", vec![(tag::VHEA, vec![0, 1, 0, 0]), (tag::VMTX, vec![0, 1]), (tag::MORX, vec![0, 2, 0, 0])]),
+            ("corrupt-bitmaps", vec![(tag::SBIX, vec![0, 1, 0, 1]), (tag::CBLC, vec![0, 3, 0, 0]), (tag::CBDT, vec![0, 3, 0, 0])]),
+        ];
+        for (nm, tables) in corrupt {
+            let data = otmodel::tables::minimal_font(4, &cmap, &tables);
+            let shape = |text, feats, kerning| Op::Shape { text, script: tag::LATN, lang: None, feats, tuple: None, kerning };
+            let ops = vec![
+                shape("ab", FeatSel::Mask(dflt), true),
+                shape("ba", FeatSel::Mask(dflt), false),
+                shape("ab", FeatSel::Custom(vec![tag::LIGA, tag::KERN]), true),
+                Op::Tables,
+                Op::VAdvance(1),
+                Op::HAdvance(1),
+                Op::HasImages,
+                Op::Image(1),
+                Op::Names,
+                Op::Lookup { ch: 'a', required: true, vs: Some(16) },
+            ];
+            v.push(Subject { name: format!("synthetic-{}", nm), data, filter: None, ops });
+        }
+    }
     v
 }
 
